@@ -291,7 +291,7 @@ func overlay(repo, outdir, hooks string) error {
 	os.MkdirAll(outdir, 0o755)
 	repl := map[string]string{}
 	absRepo, _ := filepath.Abs(repo)
-	for _, name := range []string{"cache.go", "rate_limiter.go", "types.go"} {
+	for _, name := range []string{"cache.go", "rate_limiter.go", "types.go", "operations.go", "nfs_proc_attr.go"} {
 		fset := token.NewFileSet()
 		src := filepath.Join(absRepo, name)
 		f, err := parser.ParseFile(fset, src, nil, parser.ParseComments)
@@ -330,7 +330,7 @@ func overlay(repo, outdir, hooks string) error {
 			return err
 		}
 		dst := filepath.Join(outdir, name)
-		writeIfChanged(dst, sb.String())
+		writeIfChanged(dst, sb.String()+"\nvar _ time.Time // keeps the import used after the clock rewrite\n")
 		repl[src] = dst
 		fmt.Printf("overlay %s: %d clock sites rewritten\n", name, n)
 	}
